@@ -1,4 +1,5 @@
 use crate::html::{element::ElementType, node_ref::NodeRefContainer};
+#[cfg_attr(leptos_verif, allow(unused_imports))]
 use reactive_graph::{
     effect::Effect,
     graph::untrack,
@@ -88,6 +89,16 @@ where
     E: ElementType,
     E::Output: JsCast + 'static,
 {
+    /// Native twin of `load` below: a native element cannot be turned into `E::Output` (a
+    /// `web_sys` type), so the `NodeRef` stays empty and the load is only recorded, see
+    /// `native_dom::node_ref_loads()`.
+    #[cfg(leptos_verif)]
+    fn load(self, el: &crate::renderer::types::Element) {
+        _ = self;
+        crate::renderer::native_dom::record_node_ref_load(el);
+    }
+
+    #[cfg(not(leptos_verif))]
     fn load(self, el: &crate::renderer::types::Element) {
         // safe to construct SendWrapper here, because it will only run in the browser
         // so it will always be accessed or dropped from the main thread
